@@ -1,7 +1,8 @@
-(* C16: the iteration cut-off.  A forwarding chain f0 -> f1 -> ... -> f100
-   whose array is known only at the caller is satisfiable but rejected by the
-   faithful model (as by the implementation) with "too many iterations". *)
-From Verif Require Import Lib.Base Model.Resolver Proofs.Resolver Proofs.ResolverSound Proofs.ResolverExact.
+(* C16: the former iteration cut-off (repaired, finding F-C16-1).  A forwarding
+   chain f0 -> f1 -> ... -> f100 whose array is known only at the caller is
+   satisfiable; the resolver with the constant limit 100 it had rejected it with
+   "too many iterations"; the resolver as it is now accepts it. *)
+From Verif Require Import Lib.Base Model.Resolver Proofs.Resolver Proofs.ResolverSound Proofs.ResolverExact Proofs.ResolverLoop.
 From Coq Require Import Permutation.
 Open Scope Z_scope.
 
@@ -75,26 +76,26 @@ Proof. vm_compute. reflexivity. Qed.
 Lemma chain_sat : sat (chain_prog 101).
 Proof. exists chain_rho. apply solution_b. vm_compute. reflexivity. Qed.
 
-Lemma chain_rejected : resolve (seed_oracle 0) (chain_prog 101) = RErr ETooManyIter.
+(* before the repair: the constant 100 *)
+Lemma chain_rejected_by_constant_limit : resolve_cut cutoff (seed_oracle 0) (chain_prog 101) = RErr ETooManyIter.
 Proof. vm_compute. reflexivity. Qed.
 
-Lemma chain_rejected_any_seed :
-  forallb (fun seed => match resolve (seed_oracle seed) (chain_prog 101) with RErr ETooManyIter => true | _ => false end)
-          [1; 5]%nat = true.
-Proof. vm_compute. reflexivity. Qed.
-
-(* one function fewer, or a higher cut-off, and the same program shape is accepted *)
-Lemma chain_100_accepted : exists F, resolve (seed_oracle 0) (chain_prog 100) = ROk F.
+Lemma chain_100_accepted_by_constant_limit : exists F, resolve_cut cutoff (seed_oracle 0) (chain_prog 100) = ROk F.
 Proof. eexists. vm_compute. reflexivity. Qed.
 
-Lemma chain_accepted_with_higher_cutoff : exists F, resolve_cut 101 (seed_oracle 0) (chain_prog 101) = ROk F.
-Proof. eexists. vm_compute. reflexivity. Qed.
+(* no constant is large enough for every program: exactness fails for every constant limit *)
+Definition constant_limit_exactness (cut : nat) : Prop :=
+  forall pi P, perm_oracle pi -> wf P = true -> ((exists F, resolve_cut cut pi P = ROk F) <-> sat P).
 
-Definition full_exactness : Prop :=
-  forall pi P, perm_oracle pi -> wf P = true -> ((exists F, resolve pi P = ROk F) <-> sat P).
-
-Lemma full_exactness_refuted : ~ full_exactness.
+Lemma constant_limit_100_refuted : ~ constant_limit_exactness cutoff.
 Proof.
   intros H. destruct (H (seed_oracle 0) (chain_prog 101) (seed_oracle_perm 0) chain_wf) as [_ H2].
-  destruct (H2 chain_sat) as [F HF]. rewrite chain_rejected in HF. discriminate.
+  destruct (H2 chain_sat) as [F HF]. rewrite chain_rejected_by_constant_limit in HF. discriminate.
 Qed.
+
+(* now: the same programs under the resolver as it is *)
+Lemma chain_accepted : exists F, resolve (seed_oracle 0) (chain_prog 101) = ROk F.
+Proof. eexists. vm_compute. reflexivity. Qed.
+
+Lemma chain_accepted_impl : exists F, resolve_impl (chain_prog 101) = ROk F.
+Proof. eexists. vm_compute. reflexivity. Qed.
